@@ -5,7 +5,7 @@ directly by the coordinate-expression builder, the halo builder and the n-way
 step substitution."""
 import random
 
-from .. import case as C, run, corpus
+from .. import case as C, run, corpus, kf
 from ..monitors import treeeq
 from ..yamlspec import spec_from_yaml
 from . import common
@@ -41,7 +41,7 @@ def check_program(st, cs, compiled, cls):
     st.bump("class_ok", cls + "/" + cs.mode)
     if d:
         out.problems.append(dict(d, kind="tree-text-mismatch"))
-    st.account(ID, cs, out, None, mode_key=cs.mode)
+    st.account(ID, cs, out, kf.kf12, mode_key=cs.mode)
 
 
 def gen_sympy_expr(rnd):
